@@ -223,7 +223,7 @@ func checkC42(c *Ctx, r *Report) {
 						}
 					}
 					marked := false
-					for o := range eng.pts(u.X, nil) {
+					for o := range eng.query(u.X) {
 						if o.mark {
 							marked = true
 						}
